@@ -704,7 +704,7 @@ theorem readWindow_mu (e : Enc) (he : EncOK e) : ∀ (fuel : Nat) (st : EncSt), 
     intro st h
     unfold readWindow
     by_cases hstop : (st.readEnd || decide (st.win.length ≥ e.w)) = true
-    · simp only [hstop, ↓reduceIte]; exact ⟨rfl, h⟩
+    · simp only [hstop, ↓reduceIte]; exact ⟨trivial, h⟩
     · simp only [hstop, Bool.false_eq_true, ↓reduceIte]
       cases hk : e.ks[st.next]? with
       | none =>
@@ -720,15 +720,13 @@ theorem readWindow_mu (e : Enc) (he : EncOK e) : ∀ (fuel : Nat) (st : EncSt), 
         obtain ⟨_, hkf⟩ := he.blocks st.next k hk
         simp only [hkf, Bool.false_eq_true, ↓reduceIte]
         have hlt : st.next < e.ks.size := (Array.getElem?_eq_some_iff.mp hk).1
-        obtain ⟨i1, i2⟩ := ih { st with win := st.win ++ [{ sbn := st.next, k := k, rest := List.range (shardsOf e.scheme k e.p) }],
-                                  next := st.next + 1, readEnd := st.next + 1 == e.ks.size } (by simp only; omega)
-        refine ⟨?_, i2⟩
-        rw [i1]
-        simp only [mu, W_append, W, List.length_range, fuelOf]
         have hg : e.ks.getD st.next 0 = k := by simp [Array.getD_eq_getD_getElem?, hk]
         have hm := fuelOf_mono e (st.next + 1) e.ks.size (by omega)
         simp only [fuelOf, hg] at hm
-        rw [hg]; omega
+        refine ⟨Eq.trans (ih _ ?_).1 ?_, (ih _ ?_).2⟩
+        · simp only; omega
+        · simp only [mu, W_append, W, List.length_range, fuelOf, hg]; omega
+        · simp only; omega
 
 /-- **the emission loop terminates**: with more fuel than there is work left it never runs out of fuel -/
 theorem emitLoop_some (e : Enc) (he : EncOK e) (tot : Nat) : ∀ (fuel : Nat) (st : EncSt),
@@ -759,24 +757,27 @@ theorem emitLoop_some (e : Enc) (he : EncOK e) (tot : Nat) : ∀ (fuel : Nat) (s
         cases hrest : blk.rest with
         | nil =>
           simp only
-          apply ih _ m2
-          have := W_eraseIdx st1.win idx blk hb
-          simp only [mu] at m1 hmu ⊢
-          rw [hrest] at this
-          simp only [List.length_nil, Nat.add_zero] at this
-          omega
+          apply ih
+          · exact m2
+          · have := W_eraseIdx st1.win idx blk hb
+            simp only [mu] at m1 hmu ⊢
+            rw [hrest] at this
+            simp only [List.length_nil, Nat.add_zero] at this
+            omega
         | cons esi rest =>
           simp only
-          have : ∃ T, emitLoop e tot n { st1 with win := st1.win.set idx { blk with rest := rest }, idx := idx + 1,
-              srcSent := if esi < blk.k then st1.srcSent + 1 else st1.srcSent, sent := st1.sent + 1 } = some T := by
-            apply ih _ m2
-            have := W_set st1.win idx blk { blk with rest := rest } hb
+          have key : ∀ (f : List Sym → List Sym) (st2 : EncSt), st2.next ≤ e.ks.size → mu e st2 < n →
+              ∃ T, Option.map f (emitLoop e tot n st2) = some T := by
+            intro f st2 h1 h2
+            obtain ⟨T, hT⟩ := ih st2 h1 h2
+            exact ⟨f T, by rw [hT]; rfl⟩
+          apply key
+          · exact m2
+          · have := W_set st1.win idx blk { blk with rest := rest } hb
             simp only [mu] at m1 hmu ⊢
             rw [hrest] at this
             simp only [List.length_cons] at this
             omega
-          obtain ⟨T, hT⟩ := this
-          exact ⟨_, by rw [hT]; rfl⟩
 
 /-- one transfer is always produced (the model's `hang` outcome never occurs) -/
 theorem emit_terminates (e : Enc) (he : EncOK e) : ∃ T, emitTransfer e = some T := by
